@@ -231,10 +231,16 @@ func H_C19_stored() {
 	viaObjFrom := NewObjectFrom(map[string]any{"d": do})
 	viaIns := NewList(1, 2).Insert(1, do).Replace(0, dl).Add(do)
 	viaTF := NewObject().SetTF(".a#1", dl).SetTF(".b.c", do)
+	viaTF2 := NewList(1).SetTF("#3", dl).SetTF("#5", do) // strictly past the end of a non-empty list
+	plainL, plainO := NewList(dl.Slice()...), NewObject("q", do.Get("q"))
+	viaOver := NewObject("l", plainL, "o", plainO).Set("l", dl).SetTF(".o", do) // over plain containers with the same content
+	viaOverL := NewList(plainL, plainO).Replace(0, dl).SetTF("#1", do)
 	vok := viaOf.Get(0) == any(dl) && viaOf.Get(1) == any(dl) && viaOf.GetList(2) == dl
 	vok = vok && viaFrom.GetObject(0) == do && viaFrom.GetList(1) == dl && viaObjFrom.GetObject("d") == do
 	vok = vok && viaIns.GetList(0) == dl && viaIns.GetObject(1) == do && viaIns.GetObject(3) == do
 	vok = vok && viaTF.GetTF(".a#1") == any(dl) && viaTF.GetTF(".b.c") == any(do)
+	vok = vok && viaTF2.Count() == 6 && viaTF2.Get(3) == any(dl) && viaTF2.Get(5) == any(do)
+	vok = vok && viaOver.Get("l") == any(dl) && viaOver.Get("o") == any(do) && viaOverL.Get(0) == any(dl) && viaOverL.Get(1) == any(do)
 	verifAssert(vok, "a derived value stored through any constructor or mutator (NewListOf, NewListFrom, NewObjectFrom, Insert, Replace, Add, SetTF) is handed back as the identical outer value")
 	// tree-form writes and removals that pass through a stored derived value keep it in place
 	host := NewObject("d", do, "l", dl)
